@@ -20,6 +20,8 @@ Inductive caseD :=
 | Sw (input : list int) (outcome : int) (reenc : list int) (lenv same known : int)
 (* C12: the frame, the outcome, the re-encoding and Len() of the parsed message AFTER its input
    buffer was overwritten, whether all fields / the encoding are what they were before *)
+(* an input too large to evaluate the model on at this tier: the implementation's outcome only *)
+| GoOnly (outcome : int)
 | Own (input : list int) (outcome : int) (reenc : list int) (lenv dumpeq enceq : int).
 
 Definition model_agrees (d : list byte) (oc : N) (re : list byte) (lenv : N) (cmp : bool) : bool :=
@@ -34,6 +36,7 @@ Definition check07 (c : caseD) : verdict :=
   match c with
   | Par input oc re lenv cmp same =>
     mkv (model_agrees (unpack input) (n_of oc) (unpack re) (n_of lenv) false) (n_of oc <? 2)
+  | GoOnly oc => mkv true (n_of oc <? 2)
   | _ => VBad
   end.
 
